@@ -334,3 +334,12 @@ reg("C39", "exploration", "TLA+ reference pipelines (exact / 0..255 scaling in b
     "telegrams, the state property is read; TLC judges the state against the reference pipeline of the configuration (ties go either way).",
     "Trusted: TLC; which pipeline applies to which configuration (a table in the driver); the mocked interface confirms every frame.",
     "DESIGN.md section 5 C39", driver="c39", entry="run")
+
+reg("C45", "model_checking", "TLC exhaustive on the paging protocol of list_dpts (Mcp.tla: Complete, NoDuplicates, Terminates for every N <= 7 and limit; the deviation 'an empty page announces a next page' must violate Terminates) + laws PagesOk / JsonOk / InverseOk judged by TLC on recorded tool sessions",
+    "Binding: the real xknx.mcp.tools. list_dpts is followed page by page (next_offset) for every main-number filter, 15 text filters and page sizes 1, 2, 3, 7, 50..250, 0 and negative "
+    "(thorough: every size -2..259); every page is judged against the server function of the model (window length, limit flag, next offset, total) and its items against the positions "
+    "of the unpaged listing; the session must end. Every result of list_dpts, describe_dpt (every DPT number and value-type name), get_connection_status, send_group_value_read / write, "
+    "encode / decode is passed through dataclasses.asdict and the standard JSON encoder and loaded back. decode_dpt_payload -> JSON -> encode_dpt_payload -> decode_dpt_payload over the "
+    "payload plan of C07 (declared shape) for every DPT: same JSON value.",
+    "Trusted: TLC; JSON text equality of decoded values.",
+    "DESIGN.md section 5 C45", driver="c45", entry="run")
